@@ -610,6 +610,161 @@ def check_loess(ctx, st, rng, x, y, trial):
     st.up('a:loess', worst)
 
 
+
+# ------------------------------------------------------------------ conditioning stress with an exact certificate
+TOL_S = 30.0     # unchanged tree: <= 0.16 over 216 measured cases; a normal-equations solve: 1e2 .. 1e7
+
+
+def exact_eta(cols, w, y, b):
+    """Residual-orthogonality certificate in exact rational arithmetic: the norm of the projection of the weighted
+    residual sqrt(w) (b - y) onto the range of sqrt(w) [cols], relative to |sqrt(w) y|.  It is 0 exactly when b is the
+    weighted least-squares fit from span(cols); for a fit b = cols @ c it equals the weighted distance between b and
+    the true minimiser.  cols: exact columns (Fractions); w, y, b: floats taken as exact."""
+    n, N = len(cols), len(w)
+    W = [Fraction(float(v)) for v in w]
+    R = [Fraction(float(bi)) - Fraction(float(yi)) for bi, yi in zip(b, y)]
+    WC = [[W[i] * cols[j][i] for i in range(N)] for j in range(n)]
+    g = [sum(WC[j][i] * R[i] for i in range(N)) for j in range(n)]
+    M = [[sum(WC[j][i] * cols[k][i] for i in range(N)) for k in range(n)] + [g[j]] for j in range(n)]
+    for c in range(n):
+        piv = next((r for r in range(c, n) if M[r][c] != 0), None)
+        if piv is None:
+            return None          # exactly rank deficient: the minimiser is not unique, nothing to certify here
+        M[c], M[piv] = M[piv], M[c]
+        inv = 1 / M[c][c]
+        for r in range(c + 1, n):
+            if M[r][c] != 0:
+                f = M[r][c] * inv
+                M[r] = [a - f * bb for a, bb in zip(M[r], M[c])]
+    d = [Fraction(0)] * n
+    for c in range(n - 1, -1, -1):
+        d[c] = (M[c][n] - sum(M[c][k] * d[k] for k in range(c + 1, n))) / M[c][c]
+    q = sum(gi * di for gi, di in zip(g, d))
+    sc = sum(Wi * Fraction(float(yi)) ** 2 for Wi, yi in zip(W, y))
+    if sc == 0:
+        return None
+    return math.sqrt(float(q / sc)) if q > 0 else 0.0
+
+
+def stress_weights(rng, kind, tt, p):
+    """Weights with a wide dynamic range (what users really pass: inverse variances, ramps, a few trusted points)."""
+    n = tt.size
+    base = 3 + 2 * tt - tt ** 2 + 0.5 * tt ** 3
+    if kind == 0:
+        return 10.0 ** rng.uniform(-6, 6, n), base + rng.normal(0, 0.1, n)
+    if kind == 1:
+        dec = float(rng.choice([4, 6, 8, 10]))
+        y = 10.0 ** (dec * (1 - (tt + 1) / 2)) * (1 + rng.normal(0, 0.01, n)) + 5
+        return 1 / y ** 2, y
+    if kind == 2:
+        return np.exp(rng.uniform(3, 14) * tt), base + rng.normal(0, 0.1, n)
+    w = np.full(n, 1e-6)
+    w[rng.choice(n, min(n, p + 3), replace=False)] = 1e6
+    return w, base + rng.normal(0, 0.1, n)
+
+
+def stress_eta_1d(x, y, w, p, b):
+    lo, hi = float(x.min()), float(x.max())
+    tt = mapped_ref(x, lo, hi)
+    kap = float(np.linalg.cond(np.sqrt(w)[:, None] * Pn.polyvander(tt, p)))
+    T = [Fraction(float(v)) for v in tt]
+    cols = [[Fraction(1)] * x.size]
+    for _ in range(p):
+        cols.append([a * t for a, t in zip(cols[-1], T)])
+    return exact_eta(cols, w, y, b), kap
+
+
+def oracle_stress(ctx, st, budget):
+    """poly (the method with an optimality statement) under conditioning stress: orders 6..13, weights spanning up to 20
+    decades, x scaled by 2^-10..2^10, through every entry path (class method, functional interface, reused object).
+    Judged by the exact certificate against eps * cond(sqrt(w) V): the accuracy of an SVD-based solve of the tall
+    problem.  Any route through V'WV squares the condition number and lands orders of magnitude above."""
+    from pybaselines import Baseline, Baseline2D
+    from pybaselines import polynomial as functional
+    rng = np.random.default_rng(ctx.seed + 85)
+    for trial in range(20 * budget):
+        n = int(rng.choice([40, 60]))
+        p = int(rng.integers(6, 14))
+        t = np.sort(rng.uniform(-1, 1, n))
+        t[0], t[-1] = -1.0, 1.0
+        sc = 2.0 ** int(rng.integers(-10, 11))
+        x = float(rng.choice([0, 1, -2])) * sc + sc * t
+        tt = mapped_ref(x, float(x.min()), float(x.max()))
+        kind = trial % 4
+        w, y = stress_weights(rng, kind, tt, p)
+        if trial % 3 == 2:
+            perm = rng.permutation(n)
+            x, y, w = x[perm], y[perm], w[perm]
+        path = ['class', 'functional', 'reused'][trial % 3 if trial % 5 else 2]
+        case = {'kind': 'stress1d', 'path': path, 'poly_order': p, 'x': x.tolist(), 'y': y.tolist(), 'weights': w.tolist()}
+        try:
+            if path == 'functional':
+                b, _ = quiet(functional.poly, y, x, poly_order=p, weights=w)
+            else:
+                fit = Baseline(x)
+                if path == 'reused':
+                    quiet(fit.poly, y, poly_order=min(p + 2, 14))
+                    quiet(fit.modpoly, y, poly_order=p, weights=w)
+                b, _ = quiet(fit.poly, y, poly_order=p, weights=w)
+        except Exception as exc:
+            ctx.note(f'poly raised {type(exc).__name__} on a stress input: {str(exc)[:80]}')
+            continue
+        b = np.asarray(b, dtype=float)
+        eta, kap = stress_eta_1d(x, y, w, p, b)
+        nontriv = eta is not None and np.all(np.isfinite(b)) and 1e3 <= kap <= 1e12
+        ctx.case(('stress1', trial, p, kind, path, ctx.seed), nontrivial=bool(nontriv), kind=f'stress1d:{["loguniform", "inverse-variance", "ramp", "few-trusted"][kind]}:{path}')
+        if not nontriv:
+            continue
+        r = eta / (EPS * kap)
+        st.up('s:eta/(eps*cond)', r)
+        if r > TOL_S:
+            ctx.fail('optimal:poly:1d:conditioning', f'poly ({path}) is not the weighted least-squares polynomial to the accuracy of an SVD solve: '
+                     f'exact weighted distance to the true minimiser {eta:.3g} (relative to |sqrt(w) y|) = {r:.3g} x eps x cond(sqrt(w) V) '
+                     f'(order {p}, cond {kap:.3g}, weights over {np.log10(w.max() / w.min()):.0f} decades)', case)
+    # 2-D poly
+    for trial in range(4 * budget):
+        px, pz = int(rng.integers(2, 5)), int(rng.integers(2, 4))
+        mc = [None, 1, 2][trial % 3]
+        x = np.sort(rng.uniform(-1, 1, 10)) * 2.0 ** int(rng.integers(-8, 9))
+        z = (np.sort(rng.uniform(-1, 1, 8)) + float(rng.choice([0, 1]))) * 2.0 ** int(rng.integers(-8, 9))
+        tx, tz = mapped_ref(x, float(x.min()), float(x.max())), mapped_ref(z, float(z.min()), float(z.max()))
+        Y = 3 + 2 * tx[:, None] - tz[None, :] + tx[:, None] * tz[None, :] + rng.normal(0, 0.1, (10, 8))
+        W = 10.0 ** rng.uniform(-5, 5, Y.shape) if trial % 2 else np.exp(rng.uniform(3, 10) * (tx[:, None] + tz[None, :]) / 2)
+        case = {'kind': 'stress2d', 'poly_order': [px, pz], 'max_cross': mc, 'x': x.tolist(), 'z': z.tolist(), 'y': Y.tolist(),
+                'weights': W.tolist()}
+        try:
+            b, _ = quiet(Baseline2D(x, z).poly, Y, poly_order=(px, pz), weights=W, max_cross=mc)
+        except Exception as exc:
+            ctx.note(f'2-D poly raised {type(exc).__name__} on a stress input: {str(exc)[:80]}')
+            continue
+        eta, kap = stress_eta_2d(x, z, Y, W, px, pz, mc, np.asarray(b, dtype=float))
+        nontriv = eta is not None and np.all(np.isfinite(b)) and 1e2 <= kap <= 1e12
+        ctx.case(('stress2', trial, px, pz, mc, ctx.seed), nontrivial=bool(nontriv), kind=f'stress2d:max_cross={mc}')
+        if not nontriv:
+            continue
+        r = eta / (EPS * kap)
+        st.up('s2:eta/(eps*cond)', r)
+        if r > TOL_S:
+            ctx.fail('optimal:poly:2d:conditioning', f'2-D poly is not the weighted least-squares polynomial to the accuracy of an SVD solve: '
+                     f'{r:.3g} x eps x cond (orders {px},{pz}, max_cross {mc}, cond {kap:.3g})', case)
+
+
+def stress_eta_2d(x, z, Y, W, px, pz, mc, b):
+    tx, tz = mapped_ref(x, float(x.min()), float(x.max())), mapped_ref(z, float(z.min()), float(z.max()))
+    keep = masked_cols(px, pz, mc)
+    A = (Pn.polyvander(tx, px)[:, None, :, None] * Pn.polyvander(tz, pz)[None, :, None, :]).reshape(x.size * z.size, -1)[:, keep]
+    kap = float(np.linalg.cond(np.sqrt(W.ravel())[:, None] * A))
+    TX, TZ = [Fraction(float(v)) for v in tx], [Fraction(float(v)) for v in tz]
+    cols = []
+    k = 0
+    for a in range(px + 1):
+        for bb in range(pz + 1):
+            if keep[k]:
+                cols.append([TX[i] ** a * TZ[j] ** bb for i in range(x.size) for j in range(z.size)])
+            k += 1
+    return exact_eta(cols, W.ravel(), Y.ravel(), b.ravel()), kap
+
+
 # ------------------------------------------------------------------ two dimensions
 def masked_cols(px, pz, mc):
     keep = []
@@ -833,7 +988,9 @@ def run(ctx):
                 'negative), orders 0..8, weights none/random with zeros, every 1-D polynomial method incl. all six penalized_poly cost functions, '
                 'loess coefficient rows, dietrich, and the five 2-D methods with order pairs 0..3 and max_cross None/0/1/2; '
                 'the same checks on every call of 2-4 (1-D) / 9 (2-D) call sequences on ONE shared Baseline / Baseline2D object with orders going up and down, '
-                'unweighted and weighted calls and mixed methods; non-trivial = order >= 1 and a finite returned baseline')
+                'unweighted and weighted calls and mixed methods; conditioning stress for poly (orders 6..13, weights over up to 20 decades: log-uniform, '
+                'inverse-variance, exponential ramp, few trusted points; class / functional / reused-object entry paths; 2-D orders up to (4,3)) judged by an '
+                'exact rational residual-orthogonality certificate against eps*cond(sqrt(w) V); non-trivial = order >= 1 and a finite returned baseline')
     ctx.trusted += [
         'numpy.linalg.pinv / lstsq (SVD): enter C08/NormalEq.v as a Section variable with the Moore-Penrose conditions; sampled on the matrices poly passes',
         'numpy.polynomial.polyutils.mapparms/mapdomain, polyvander, polyvander2d, scipy.special.binom, float ** int: modelled in C08/Model.v, '
@@ -846,6 +1003,7 @@ def run(ctx):
     ctx.gate()
     ctx.translate(['GenPolyFlow'])
     ctx.translate(['GenPolyTransform'])
+    ctx.translate(['GenPolySolve'])
     ok = ctx.build_props()
     bad = correspondence(ctx)
     st = Stats()
@@ -854,6 +1012,7 @@ def run(ctx):
     probe_lower_triangle(ctx)
     oracle_1d(ctx, st, budget)
     oracle_seq_1d(ctx, st, budget)
+    oracle_stress(ctx, st, min(budget, 12))
     oracle_2d(ctx, st, budget)
     ctx.extra['measured_max_ratios'] = {k: float(f'{v:.4g}') for k, v in sorted(st.m.items())}
     ctx.note(f'oracle budget x{budget}; thresholds: coefficient reproduction {TOL_A} x eps x conditioning bound (measured max on this run '
@@ -902,6 +1061,31 @@ def replay(rep):
         print(f'{len(case.get("history", []))} earlier calls on the shared object; last call {last["method"]} order {last["poly_order"]}: '
               f'max |baseline(reused object) - baseline(fresh object)| = {dev:.6g}')
         return 1 if dev > 1e-6 * (float(np.abs(b2).max()) + 1e-300) else 0
+    if kind in ('stress1d', 'stress2d'):
+        from pybaselines import Baseline, Baseline2D
+        from pybaselines import polynomial as functional
+        x, w = np.array(case['x']), np.array(case['weights'])
+        y = np.array(case['y'])
+        if kind == 'stress1d':
+            p = case['poly_order']
+            if case.get('path') == 'functional':
+                b, _ = quiet(functional.poly, y, x, poly_order=p, weights=w)
+            else:
+                fit = Baseline(x)
+                if case.get('path') == 'reused':
+                    quiet(fit.poly, y, poly_order=min(p + 2, 14))
+                    quiet(fit.modpoly, y, poly_order=p, weights=w)
+                b, _ = quiet(fit.poly, y, poly_order=p, weights=w)
+            eta, kap = stress_eta_1d(x, y, w, p, np.asarray(b, dtype=float))
+        else:
+            z = np.array(case['z'])
+            px, pz = case['poly_order']
+            b, _ = quiet(Baseline2D(x, z).poly, y, poly_order=(px, pz), weights=w, max_cross=case['max_cross'])
+            eta, kap = stress_eta_2d(x, z, y, w, px, pz, case['max_cross'], np.asarray(b, dtype=float))
+        r = eta / (EPS * kap)
+        print(f'exact weighted distance of the returned baseline to the true weighted least-squares polynomial: {eta:.3g} '
+              f'(relative to |sqrt(w) y|) = {r:.3g} x eps x cond(sqrt(w) V), cond = {kap:.3g}; allowed {TOL_S}')
+        return 1 if r > TOL_S else 0
     if kind == 'oracle1d':
         from pybaselines import Baseline
         x, y = np.array(case['x']), np.array(case['y'])
